@@ -199,6 +199,8 @@ struct Agg {
     /// violations seen on pooled threads that did not reproduce in the clean room
     tainted: u64,
     tainted_examples: Vec<String>,
+    /// (run index, violation as seen on pooled threads, pinned case) of some of them
+    tainted_cases: Vec<(u64, Violation, serde_json::Value)>,
 }
 
 impl Agg {
@@ -263,6 +265,11 @@ impl Agg {
     fn merge(&mut self, o: Agg) {
         self.evaluations += o.evaluations;
         self.tainted += o.tainted;
+        for c in o.tainted_cases {
+            if self.tainted_cases.len() < 8 {
+                self.tainted_cases.push(c);
+            }
+        }
         for e in o.tainted_examples {
             if self.tainted_examples.len() < 3 {
                 self.tainted_examples.push(e);
@@ -389,6 +396,12 @@ pub fn run_batch_ev<E: Engine>(args: &BatchArgs) -> (i32, serde_json::Value) {
                                 o.trace_hash = oc.trace_hash;
                             } else {
                                 agg.tainted += 1;
+                                if agg.tainted_cases.len() < 4 {
+                                    if let Some(v) = o.violations.iter().find(|v| v.concerns(&args.prop)) {
+                                        let pinned = E::pin_schedule(c, &o);
+                                        agg.tainted_cases.push((idx, v.clone(), serde_json::to_value(&pinned).unwrap()));
+                                    }
+                                }
                                 if agg.tainted_examples.len() < 3 {
                                     agg.tainted_examples.push(format!("run {idx}: {}", o.violations.iter().map(|v| v.clause.as_str()).collect::<Vec<_>>().join(",")));
                                 }
@@ -430,7 +443,33 @@ pub fn run_batch_ev<E: Engine>(args: &BatchArgs) -> (i32, serde_json::Value) {
         }
     }
 
+    // Candidates that did not reproduce in the in-process clean room get one more chance in a
+    // brand-new PROCESS (no state of any earlier run at all, not even process-wide statics): a
+    // violation that shows there twice, identically, is reported as it is (not minimised).
+    let mut fresh_process_reports: Vec<(String, Violation)> = Vec::new();
     if agg.tainted > 0 && agg.violations.is_empty() {
+        for (idx, v, cval) in agg.tainted_cases.iter() {
+            let case: E::Case = match serde_json::from_value(cval.clone()) {
+                Ok(c) => c,
+                Err(_) => continue,
+            };
+            let mut o = Outcome::default();
+            o.trace.push("(not minimised: this violation reproduces in a brand-new process but not after other runs in the same process)".into());
+            let file = write_replay::<E>(&args.prop, &case, &o, v, args.seed, *idx, false, 0);
+            let a = replay_in_child(&file);
+            let b = replay_in_child(&file);
+            match (a, b) {
+                (Some((ca, ha)), Some((cb, hb))) if ca == v.clause && cb == v.clause && ha == hb => {
+                    fresh_process_reports.push((file, v.clone()));
+                    break;
+                }
+                _ => {
+                    let _ = std::fs::remove_file(&file);
+                }
+            }
+        }
+    }
+    if agg.tainted > 0 && agg.violations.is_empty() && fresh_process_reports.is_empty() {
         harness_errors.push(format!(
             "{} run(s) of the batch showed a violation that did not reproduce in isolation (brand-new threads, same case and schedule), e.g. {:?}: state is leaking between runs - the code under test keeps thread-local or process-wide state. No isolated reproduction was found, so nothing is reported as a violation",
             agg.tainted, agg.tainted_examples
@@ -475,6 +514,14 @@ pub fn run_batch_ev<E: Engine>(args: &BatchArgs) -> (i32, serde_json::Value) {
                 harness_errors.push(format!("replay {file} did not reproduce in a fresh process: {e}"));
             }
         }
+    }
+    for (file, v) in &fresh_process_reports {
+        n_unlisted += 1;
+        reported.push((file.clone(), v.clone()));
+        println!("VIOLATION property={} replay={}", args.prop, file);
+        println!("  clause: {}", v.clause);
+        println!("  detail: {}", v.detail);
+        println!("  note: reproduces in a brand-new process (twice, identically), not after other runs in the same process: the code under test keeps process-wide state");
     }
     for l in &known_lines {
         println!("{l}");
@@ -660,6 +707,20 @@ pub fn write_replay<E: Engine>(prop: &str, case: &E::Case, out: &Outcome, v: &Vi
     };
     std::fs::write(&path, serde_json::to_string_pretty(&rf).unwrap()).expect("write replay file");
     path.to_string_lossy().into_owned()
+}
+
+/// Run `sim replay <file> --quiet` in a brand-new process: Some((clause, trace hash)) if it reproduced.
+fn replay_in_child(file: &str) -> Option<(String, String)> {
+    let exe = std::env::current_exe().ok()?;
+    let out = std::process::Command::new(exe).arg("replay").arg(file).arg("--quiet").output().ok()?;
+    if out.status.code() != Some(1) {
+        return None;
+    }
+    let stdout = String::from_utf8_lossy(&out.stdout);
+    let l = stdout.lines().find(|l| l.starts_with("REPLAYED "))?;
+    let clause = l.split_whitespace().find_map(|w| w.strip_prefix("clause="))?.to_string();
+    let hash = l.split_whitespace().find_map(|w| w.strip_prefix("trace_hash="))?.to_string();
+    Some((clause, hash))
 }
 
 fn verify_replay_in_child(file: &str, prop: &str, clause: &str, trace_hash: u64) -> Result<(), String> {
